@@ -16,6 +16,11 @@ func Find(
 
 	onHeader func(hdr *config.Header),
 ) ([]*tar.Header, error) {
+	exp, err := regexp.Compile(expression)
+	if err != nil {
+		return []*tar.Header{}, err
+	}
+
 	dbHdrs, err := metadata.Metadata.GetHeaders(context.Background())
 	if err != nil {
 		return []*tar.Header{}, err
@@ -23,7 +28,7 @@ func Find(
 
 	headers := []*tar.Header{}
 	for _, dbhdr := range dbHdrs {
-		if regexp.MustCompile(expression).Match([]byte(dbhdr.Name)) {
+		if exp.Match([]byte(dbhdr.Name)) {
 			hdr, err := converters.DBHeaderToTarHeader(converters.ConfigHeaderToDBHeader(dbhdr))
 			if err != nil {
 				return []*tar.Header{}, err
